@@ -1,0 +1,156 @@
+//go:build verif
+
+package cff
+
+// Hooks for the verification harness of property C13 (CFF structures and
+// numbers survive write/read).  Add-only; compiled only with the build tag
+// "verif".  Thin wrappers around unexported codecs, nothing else.
+
+import (
+	"bytes"
+
+	"seehuhn.de/go/sfnt/glyph"
+	"seehuhn.de/go/sfnt/parser"
+)
+
+// VerifC13EncodeIndex exposes cffIndex.encode.
+func VerifC13EncodeIndex(blobs [][]byte) []byte {
+	return cffIndex(blobs).encode()
+}
+
+// VerifC13ReadIndex runs readIndex on data, starting at position start.  It
+// returns the blobs and the parser position after the call.
+func VerifC13ReadIndex(data []byte, start int64) ([][]byte, int64, error) {
+	p := parser.New(bytes.NewReader(data))
+	if err := p.SeekPos(start); err != nil {
+		return nil, 0, err
+	}
+	idx, err := readIndex(p)
+	return [][]byte(idx), p.Pos(), err
+}
+
+// VerifC13DictOp is the operator used by VerifC13EncodeDict/VerifC13DecodeDict
+// for operand-level tests (the operator reserved for the package's own tests).
+const VerifC13DictOp = uint16(opDebug)
+
+// VerifC13EncodeDict encodes a DICT with the given entries (operators in the
+// two-byte numbering of dictOp; operands int32, float64 or string).
+func VerifC13EncodeDict(entries map[uint16][]interface{}, customStrings []string) []byte {
+	d := cffDict{}
+	for op, args := range entries {
+		d[dictOp(op)] = args
+	}
+	ss := &cffStrings{data: append([]string(nil), customStrings...)}
+	return d.encode(ss)
+}
+
+// VerifC13DecodeDict exposes decodeDict with a string table holding the given
+// custom strings.
+func VerifC13DecodeDict(buf []byte, customStrings []string) (map[uint16][]interface{}, error) {
+	ss := &cffStrings{data: append([]string(nil), customStrings...)}
+	d, err := decodeDict(buf, ss)
+	if err != nil {
+		return nil, err
+	}
+	res := make(map[uint16][]interface{}, len(d))
+	for op, args := range d {
+		res[uint16(op)] = args
+	}
+	return res, nil
+}
+
+// VerifC13EncodeFloat exposes encodeFloat (the nibble coding without the
+// leading 0x1e).
+func VerifC13EncodeFloat(x float64) []byte { return encodeFloat(x) }
+
+// VerifC13DecodeFloat exposes decodeFloat; it returns the number of bytes
+// consumed.
+func VerifC13DecodeFloat(buf []byte) (int, float64, error) {
+	rest, x, err := decodeFloat(buf)
+	return len(buf) - len(rest), x, err
+}
+
+// VerifC13OffsSize exposes offsSize.
+func VerifC13OffsSize(i int32) byte { return offsSize(i) }
+
+// VerifC13EncodeCharset exposes encodeCharset.
+func VerifC13EncodeCharset(names []int32) ([]byte, error) { return encodeCharset(names) }
+
+// VerifC13ReadCharset runs readCharset on data from position 0 and returns
+// the parser position after the call.
+func VerifC13ReadCharset(data []byte, nGlyphs int) ([]int32, int64, error) {
+	p := parser.New(bytes.NewReader(data))
+	cs, err := readCharset(p, nGlyphs)
+	return cs, p.Pos(), err
+}
+
+// VerifC13EncodeEncoding exposes encodeEncoding.
+func VerifC13EncodeEncoding(encoding []glyph.ID, glyphNames []int32) ([]byte, error) {
+	return encodeEncoding(encoding, glyphNames)
+}
+
+// VerifC13ReadEncoding runs readEncoding on data from position 0.
+func VerifC13ReadEncoding(data []byte, charset []int32) ([]glyph.ID, int64, error) {
+	p := parser.New(bytes.NewReader(data))
+	enc, err := readEncoding(p, charset)
+	return enc, p.Pos(), err
+}
+
+// VerifC13EncodeFDSelect exposes FDSelectFn.encode.
+func VerifC13EncodeFDSelect(fdSelect FDSelectFn, nGlyphs int) []byte {
+	return fdSelect.encode(nGlyphs)
+}
+
+// VerifC13ReadFDSelect runs readFDSelect on data from position 0.
+func VerifC13ReadFDSelect(data []byte, nGlyphs, nPrivate int) (FDSelectFn, int64, error) {
+	p := parser.New(bytes.NewReader(data))
+	fn, err := readFDSelect(p, nGlyphs, nPrivate)
+	return fn, p.Pos(), err
+}
+
+// VerifC13SelectWidths exposes Font.selectWidths.
+func VerifC13SelectWidths(f *Font) (float64, float64) { return f.selectWidths() }
+
+// VerifC13PrivateWidths returns the DefaultWidthX / NominalWidthX operands
+// makePrivateDict stores for private dictionary idx.
+func VerifC13PrivateWidths(f *Font, idx int, defaultWidth, nominalWidth float64) (def, nom []interface{}) {
+	d := f.makePrivateDict(idx, defaultWidth, nominalWidth)
+	return d[opDefaultWidthX], d[opNominalWidthX]
+}
+
+// VerifC13StdStrings returns the table of standard strings.
+func VerifC13StdStrings() []string { return stdStrings }
+
+// VerifC13PredefinedCharset returns the glyph names of predefined charset
+// id (0 ISOAdobe, 1 Expert, 2 ExpertSubset).
+func VerifC13PredefinedCharset(id int) []string {
+	switch id {
+	case 0:
+		return isoAdobeCharset
+	case 1:
+		return expertCharset
+	case 2:
+		return expertSubsetCharset
+	}
+	return nil
+}
+
+// VerifC13EncodeCharString exposes Glyph.encodeCharString (the width is
+// coded relative to the given default / nominal widths).
+func VerifC13EncodeCharString(g *Glyph, defaultWidth, nominalWidth float64) ([]byte, error) {
+	return g.encodeCharString(defaultWidth, nominalWidth)
+}
+
+// VerifC13DecodeCharString runs the charstring decoder without subroutines
+// and with the given default / nominal widths.
+func VerifC13DecodeCharString(code []byte, defaultWidth, nominalWidth float64) (*Glyph, error) {
+	info := &decodeInfo{defaultWidth: defaultWidth, nominalWidth: nominalWidth}
+	return info.decodeCharString(code)
+}
+
+// VerifC13EncodeCharStrings exposes Font.encodeCharStrings: the charstrings
+// and the default / nominal widths they were encoded with.
+func VerifC13EncodeCharStrings(f *Font) ([][]byte, float64, float64, error) {
+	cc, def, nom, err := f.encodeCharStrings()
+	return [][]byte(cc), def, nom, err
+}
